@@ -4,7 +4,7 @@ import json, os, time, random
 from vlib import *
 
 TRACE_CFG = """SPECIFICATION TSpec
-CONSTANT N = 9
+CONSTANT N = 9 SyncMap = TRUE
 INVARIANT TraceModelSafe
 INVARIANT Report
 POSTCONDITION Accepted
@@ -12,13 +12,13 @@ CHECK_DEADLOCK FALSE
 """
 
 def mc_consts(**kw):
-    c = {"N": 3, "Grain": '"poll"', "MaxDrops": 0, "Faults": "FALSE", "Modes": tla_set(["free", "after", "before"]),
+    c = {"N": 3, "SyncMap": "TRUE", "Grain": '"poll"', "MaxDrops": 0, "Faults": "FALSE", "Modes": tla_set(["free", "after", "before"]),
          "BadRpc": "TRUE", "MaxPush": 3, "DropHolding": "FALSE"}
     c.update(kw)
     return c
 
 def gen_consts(**kw):
-    c = {"N": 3, "MaxDrops": 0, "Faults": "FALSE", "Modes": tla_set(["free", "after", "before"]),
+    c = {"N": 3, "SyncMap": "TRUE", "MaxDrops": 0, "Faults": "FALSE", "Modes": tla_set(["free", "after", "before"]),
          "BadRpc": "FALSE", "MaxPush": 3, "DropHolding": "TRUE"}
     c.update(kw)
     return c
@@ -42,14 +42,13 @@ def design_checks(prop, tier):
                     f"{prop}-poll-faults", workers=12 if thorough else 8)
         runs.append(r)
     else:
-        # drops at every suspension point except while holding another request's reply: must be clean
-        r = run_tlc("MCSession", cfg(constants=mc_consts(MaxDrops=2, DropHolding="FALSE", BadRpc="FALSE"), invariants=inv),
+        # drops at every suspension point of a reply future: nothing is lost, nobody is left waiting
+        r = run_tlc("MCSession", cfg(constants=mc_consts(MaxDrops=2, DropHolding="TRUE", BadRpc="FALSE"), invariants=inv),
                     f"{prop}-poll-drops", workers=8)
         runs.append(r)
-        if thorough:
-            r = run_tlc("MCSession", cfg(constants=mc_consts(Grain='"micro"', MaxDrops=2, DropHolding="FALSE", BadRpc="FALSE"),
-                                         invariants=inv), f"{prop}-micro-drops", workers=12)
-            runs.append(r)
+        r = run_tlc("MCSession", cfg(constants=mc_consts(Grain='"micro"', MaxDrops=2, DropHolding="TRUE", BadRpc="FALSE"),
+                                     invariants=inv), f"{prop}-micro-drops", workers=12)
+        runs.append(r)
     for r in runs:
         if r["violated"]:
             raise ToolError(f"design check {r['name']} violated {r['violated']} - the specification itself is wrong "
@@ -57,15 +56,15 @@ def design_checks(prop, tier):
     return runs
 
 def deviation_check(verdict):
-    """The named deviation: with drops allowed while a reader holds another request's reply the
-    model loses replies (InvNoLoss), and nothing else goes wrong (InvProgress weakened by `lost`)."""
-    r = run_tlc("MCSession", cfg(constants=mc_consts(MaxDrops=2, DropHolding="TRUE", BadRpc="FALSE"),
-                                 invariants=["InvSafety", "InvProgress", "InvSurvivor"]), "C18-dev-rest", workers=8)
-    if r["violated"]:
-        raise ToolError(f"deviation model violated {r['violated']} (see {r['out']})")
-    r2 = run_tlc("MCSession", cfg(constants=mc_consts(MaxDrops=1, DropHolding="TRUE", BadRpc="FALSE"),
-                                  invariants=["InvNoLoss"]), "C18-dev-loss", workers=4)
-    return [r, r2], r2["violated"] == "InvNoLoss"
+    """Negative control: the model of the code as found (SyncMap = FALSE: async map lock held by rpc() across
+    send()) must still lose a reply when a reader is dropped while holding it (InvNoLoss) - the defect that
+    was repaired by registering before sending behind a non-async lock."""
+    r2 = run_tlc("MCSession", cfg(constants=mc_consts(SyncMap="FALSE", MaxDrops=1, DropHolding="TRUE", BadRpc="FALSE"),
+                                  invariants=["InvNoLoss"]), "C18-asfound-loss", workers=4)
+    if r2["violated"] != "InvNoLoss":
+        raise ToolError(f"Session.tla no longer reproduces the repaired C18 defect with SyncMap = FALSE (see {r2['out']})")
+    r2 = dict(r2, violated=None, name=r2["name"] + " (expected InvNoLoss violation: seen)")
+    return [r2], True
 
 def generate_walks(prop, tier, wd):
     thorough = tier == "thorough"
@@ -192,11 +191,6 @@ def check(prop, tier):
                    "events": trace_slice(trace, case) if case != "?" else [],
                    "how_to_replay": "./bin/check %s --replay <this file>" % prop}
         verdict.report(v["rule"], v["disc"], payload, detail=f"case={case} seq={v.get('seq')} n={v.get('n', 1)}")
-    if prop == "C18":
-        hit = any(h["rule"] == "LeftWaiting" for h in verdict.known_hits)
-        open_known = [k for k in verdict.known if k["rule"] == "LeftWaiting"]
-        if open_known and not hit:
-            log("note: the open known finding of C18 was not reproduced on this tree (fixed?)")
     if stats.get("drifted", 0):
         log(f"MODEL-DRIFT: {stats['drifted']} of {stats['cases']} cases left the implementation-shaped model "
             f"(first: {stats.get('firstDrift')}); contract verdicts are unaffected")
@@ -232,7 +226,8 @@ def check(prop, tier):
         cov["real_transport_drop_cases"] = {"cases": td["cases"],
                                             "reader_really_dropped_mid_message": td["reader_really_dropped_mid_message"]}
     write_evidence(prop, tier, "model_checking", cov,
-                   ["tokio::sync::Mutex hands a released lock to waiters in FIFO order (modelled so)",
+                   ["tokio::sync::Mutex hands a released lock to waiters in FIFO order (modelled so for the receive lock)",
+                    "the request map is behind a non-async mutex that is never held across an await (SyncMap = TRUE)",
                     "in-memory transport is cancel-safe and delivers whole messages",
                     "a reply is a 'stranger' only if it is taken off the transport while its id was never sent and no rpc() call is in progress",
                     "dropping the rpc() future itself (caller cancellation) is treated as a fault for progress, never for safety"],
